@@ -389,6 +389,17 @@ def mk_fn(name, *args):
         p = Poly.from_key(args[0][1])
         if p.is_zero():
             return Poly.const(1)
+        sel = next((a for a in sorted(p.atoms(), key=_k) if a[0] == 'ind'), None)
+        if sel is not None:
+            # 10**(a + [c]*b) selects between 10**(a + b) and 10**a (Shannon expansion over the bracket)
+            p0, p1 = Poly(), Poly()
+            for m, c in p.t.items():
+                if any(at == sel for at, _ in m):
+                    p1 = p1 + Poly({tuple((at, e) for at, e in m if at != sel): c})
+                else:
+                    p0 = p0 + Poly({m: c})
+            r = Poly.atom(sel)
+            return r * mk_fn('exp10', P(p0 + p1)) + (Poly.const(1) - r) * mk_fn('exp10', P(p0))
         if p.is_const() and p.const_value().denominator == 1 and abs(p.const_value()) <= 40:
             v = int(p.const_value())
             return Poly.const(Fraction(10) ** v if v >= 0 else Fraction(1, 10 ** (-v)))
@@ -407,6 +418,15 @@ def mk_fn(name, *args):
             if common:
                 f = Poly({tuple(sorted(((a, -e) for a, e in common.items()), key=lambda t: repr(t[0]))): Fraction(1)})
                 args = (P(qp * f), B(args[1][1], xp * f)) + tuple(args[2:])
+    if name == 'lininterp' and len(args) >= 3 and args[0][0] == 'P' and args[1][0] == 'B' and args[2][0] == 'B' and args[1][1] == args[2][1] \
+            and ('C', 'assume_sorted=True') not in args[3:]:
+        # scipy's interp1d sorts the table by its abscissa itself: a table whose abscissa and ordinate were gathered by one and the same permutation
+        # is the table before the gather
+        lab_ = args[1][1]
+        xp, fp = Poly.from_key(args[1][2]), Poly.from_key(args[2][2])
+        got = _ungather([xp, fp], lab_)
+        if got is not None:
+            args = (args[0], B(lab_, got[0]), B(lab_, got[1])) + tuple(args[3:])
     if name in LINEAR_FNS and len(args) > LINEAR_FNS[name] and args[LINEAR_FNS[name]][0] == 'B':
         k = LINEAR_FNS[name]
         lab, fp = args[k][1], Poly.from_key(args[k][2])
@@ -475,7 +495,27 @@ def mk_fn(name, *args):
             if c > 0 and (pos or c != 1):
                 rest = tuple((a, e) for a, e in m if not (a[0] == 'sym' and a[1].startswith('unit:')))
                 args = tuple(args[:-1]) + (B(args[-1][1], Poly({rest: Fraction(1)})),)
+    if name in ('argsort', 'argmin', 'argmax') and args and args[-1][0] == 'B':
+        # ... and the ordering of ln(y) (times positive constants) is the ordering of y
+        inner = Poly.from_key(args[-1][2])
+        lab_ = args[-1][1]
+        if inner.is_monomial():
+            (m, c), = inner.t.items()
+            dep = [(a, e) for a, e in m if lab_ in atom_labels(a)]
+            ind = [(a, e) for a, e in m if lab_ not in atom_labels(a)]
+            if c > 0 and len(dep) == 1 and dep[0][1] == 1 and dep[0][0][0] == 'fn' and dep[0][0][1] == 'ln' and dep[0][0][2][0] == 'P' and \
+                    all(a[0] == 'fn' and a[1] == 'ln' and a[2][0] == 'P' and Poly.from_key(a[2][1]).is_const() and Poly.from_key(a[2][1]).const_value() > 1 for a, _ in ind):
+                return mk_fn(name, *(tuple(args[:-1]) + (B(lab_, Poly.from_key(dep[0][0][2][1])),)))
     if name == 'argsort' and len(args) == 2 and args[0][0] == 'L' and args[1][0] == 'B' and args[0][1] == args[1][1]:
+        inner = Poly.from_key(args[1][2])
+        if inner.is_monomial():
+            (m, c), = inner.t.items()
+            if c == 1 and len(m) == 1 and m[0][1] == 1 and m[0][0][0] == 'fn' and m[0][0][1] == 'at' and len(m[0][0]) == 4 and m[0][0][2][0] == 'B' and m[0][0][2][1] == args[0][1] \
+                    and m[0][0][3][0] == 'P':
+                # x gathered by its own argsort is sorted: sorting it again is the identity permutation
+                src_ = Poly.from_key(m[0][0][2][2])
+                if Poly.from_key(m[0][0][3][1]) == mk_fn('argsort', args[0], B(args[0][1], src_)):
+                    return Poly.atom(('fn', 'arange', args[0]))
         # argsort of a permutation is its inverse: argsort(argsort(x)) == invperm(argsort(x))
         inner = Poly.from_key(args[1][2])
         if inner.is_monomial():
@@ -499,6 +539,42 @@ def mk_fn(name, *args):
         if not inner.is_monomial() and neg.is_monomial() and list(neg.t.values()) == [Fraction(1)] and all(a[0] == 'ind' for a, _ in list(neg.t)[0]):
             return Poly.const(1) - Poly.atom(('fn', 'all', ('B', args[0][1], neg.key())))
     return Poly.atom(('fn', name) + tuple(args))
+
+
+def _ungather(polys, lab):
+    """``polys`` with the gather by one permutation of axis ``lab`` removed from all of them, when every one of them is exactly such a gather; else None"""
+    pis = set()
+
+    def is_perm_gather(a):
+        if a[0] == 'fn' and a[1] == 'at' and len(a) == 4 and a[2][0] == 'B' and a[2][1] == lab and a[3][0] == 'P':
+            ip = Poly.from_key(a[3][1])
+            if ip.is_monomial():
+                (m, c), = ip.t.items()
+                if c == 1 and len(m) == 1 and m[0][1] == 1 and m[0][0][0] == 'fn' and m[0][0][1] in ('argsort', 'invperm') and m[0][0][2] == ('L', lab):
+                    return ip
+        return None
+
+    def scan(a):
+        ip = is_perm_gather(a)
+        if ip is not None:
+            pis.add(ip.key())
+        return None
+    for p in polys:
+        rebuild(p, scan)
+    if len(pis) != 1:
+        return None
+    pi = Poly.from_key(next(iter(pis)))
+
+    def strip(a):
+        ip = is_perm_gather(a)
+        if ip is not None and ip == pi:
+            return Poly.from_key(a[2][2])
+        return None
+    out = [rebuild(p, strip) for p in polys]
+    for p, q in zip(polys, out):
+        if index_at(q, lab, pi) != p:
+            return None
+    return out
 
 
 def _ln_const(c):
@@ -745,6 +821,8 @@ def index_at(p, label, idx):
     occurrences bound by a reduction / gather over the same label are untouched."""
     idx = _coerce(idx)
     run = Poly.atom(('sym', 'idx:' + str(label), (label,)))
+    if idx == Poly.atom(('fn', 'arange', ('L', label))):
+        return p                               # x[arange(n)] == x
     memo = {}
 
     def go(q):
